@@ -258,6 +258,7 @@ void Executor::op_new(const Op& op, TaskCtx& t) {
   std::unique_ptr<Obj> o(new Obj());
   o->name = op.obj; o->s.reset(new sut::Sut()); o->pm.reset(); o->owner_task = t.id;
   o->pm.i[P::i("verbosity")] = 0;
+  o->lp.sense = o->s->getInt(P::i("objsense")); o->lp.offset = model::q_from_double(o->s->getReal(P::r("obj_offset")));   // an object without LP has the default sense
   if (plan_.cfgi("logsink", 0)) { o->logbuf.reset(new LogBuf()); o->logstream.reset(new std::ostream(o->logbuf.get())); o->s->setLogSink(o->logstream.get()); }
   objs_[op.obj] = std::move(o);
 }
@@ -268,6 +269,8 @@ void Executor::op_load(const Op& op, TaskCtx& t) {
   bool viaRat = op.get("via") == "rational";
   o->lp = plan_.lps[k];
   if (viaRat) { o->s->setInt(P::i("syncmode"), 1); o->pm.i[P::i("syncmode")] = 1; o->ever_rational = true; }
+  if (!viaRat) o->lp = real_image(o->lp);   // numbers entered through the real interface are doubles: the model holds exactly those
+  o->lp.offset = model::q_from_double(model::q_to_double_nearest(o->lp.offset));   // OBJ_OFFSET is a real parameter: a double is all the user can enter
   load_model(*o->s, o->lp, viaRat, o->s->getReal(P::r("infty")));
   o->pm.i[P::i("objsense")] = o->lp.sense;
   o->pm.r[P::r("obj_offset")] = model::q_to_double_nearest(o->lp.offset);
